@@ -686,8 +686,10 @@ func (e *byzEngine) evaluate(bs *byzState, c Claim, prog *byzProgress, stats *St
 		case "Stump.Update":
 			before = copyStump(bs.stump)
 			work := copyStump(bs.stump)
+			// the additions are part of the untrusted input as well
+			adds := [][]H{{{0x77, 1}, {0x77, 2}}, nil, {{}}, {{0x77, 3}, {}}, {{0x77, 4}, {0x77, 4}}, {{}, {0x77, 5}, {0x77, 6}}}[dg%6]
 			call = func() error {
-				_, err := work.Update(hashes, []H{{0x77, 1}, {0x77, 2}}, proof)
+				_, err := work.Update(hashes, adds, proof)
 				if err != nil {
 					if work.NumLeaves != before.NumLeaves || !eqHashes(work.Roots, before.Roots) {
 						return fmt.Errorf("ATOMICITY: %v", err)
